@@ -417,6 +417,35 @@ impl Part for OnDisk {
         if let (Ok(m), Ok(a), Ok(b)) = (&mem, &a, &b) {
             ensure!(m == a && m == b, format!("c17:{f}-file-api-disagrees"), "structures differ between the in-memory reader and the file API");
         }
+        // a file that sits behind other data (a container, an archive) and two files back to back, read through ONE handle
+        // positioned at the first byte: from_file parses what starts at the handle's position
+        if mem.is_ok() && c.bytes.len() <= 16 * 1024 {
+            use std::io::{Seek, SeekFrom};
+            for k in [5u64, 64] {
+                let mut tmp2 = tempfile::NamedTempFile::new().map_err(|e| Fail::new("harness:tempfile", e.to_string()))?;
+                tmp2.write_all(&vec![0xA5u8; k as usize]).and_then(|_| tmp2.write_all(&c.bytes)).and_then(|_| tmp2.write_all(&c.bytes)).map_err(|e| Fail::new("harness:tempfile", e.to_string()))?;
+                tmp2.flush().ok();
+                let path2 = tmp2.path().to_path_buf();
+                let both = guard(|| -> (Result<String, String>, Result<String, String>) {
+                    let mut f = std::fs::File::open(&path2).unwrap();
+                    f.seek(SeekFrom::Start(k)).unwrap();
+                    match c.fmt {
+                        Format::Pth => (Pth::from_file(&mut f).map(|p| format!("{p:?}")).map_err(|e| e.to_string()), Pth::from_file(&mut f).map(|p| format!("{p:?}")).map_err(|e| e.to_string())),
+                        Format::Smx => (Smx::from_file(&mut f).map(|p| format!("{p:?}")).map_err(|e| e.to_string()), Smx::from_file(&mut f).map(|p| format!("{p:?}")).map_err(|e| e.to_string())),
+                    }
+                })
+                .map_err(|p| Fail::new(format!("c17:{f}-from-file-panics"), p))?;
+                let m = mem.as_ref().unwrap();
+                ensure!(
+                    both.0.as_ref() == Ok(m) && both.1.as_ref() == Ok(m),
+                    format!("c17:{f}-file-api-disagrees"),
+                    "two copies of a {}-byte file behind {k} other bytes, read through one handle positioned at the first: from_file gives {:?} and then {:?}; the in-memory reader accepts the file",
+                    c.bytes.len(),
+                    both.0.as_ref().map(|s| s.chars().take(60).collect::<String>()),
+                    both.1.as_ref().map(|s| s.chars().take(60).collect::<String>())
+                );
+            }
+        }
         ev.nontrivial(&(c.fmt.name(), &c.bytes));
         ev.class(if mem.is_ok() { "accepted" } else { "rejected" });
         Ok(())
